@@ -45,6 +45,9 @@ WAIVERS = {
 
 WITNESSES = {
     "make_error_from_parse_error": "struct Foo:\n  0 [+1]  UInt  UInt\n",
+    # a syntax error at a place where an expression may start: more than twenty acceptable tokens
+    "make_error_from_parse_error#many-expected-tokens": "struct Foo:\n  1 [+]  UInt  y\n",
+    "make_error_from_parse_error#condition": "struct Foo:\n  0 [+1]  UInt  x\n  if x == :\n    1 [+1]  UInt  y\n",
     "_find_object_dependency_cycles": ('[$default byte_order: "LittleEndian"]\nstruct Foo:\n'
                                        "  a [+1]  UInt  b\n  b [+1]  UInt  a\n  c [+1]  UInt  d\n  d [+1]  UInt  c\n  e [+1]  UInt  f\n  f [+1]  UInt  e\n"),
 }
@@ -122,9 +125,14 @@ def main(args):
                 else:
                     witness = WITNESSES.get(fn.split(".")[-1])
                     rep = None
-                    if witness:
-                        ok, outs = seeds_agree(src_text=witness)
-                        rep = {"reproduced": not ok, "inputs": witness, "outputs_by_seed": [o[2] for o in outs][:3]}
+                    # the function's own witness first, then every witness of the file's topic (syntax errors for util/error.py)
+                    cands = ([witness] if witness else []) + [w for k_, w in WITNESSES.items() if "#" in k_ and rel.endswith("util/error.py")]
+                    for w_ in cands:
+                        ok, outs = seeds_agree(src_text=w_)
+                        rep = {"reproduced": not ok, "inputs": w_, "outputs_by_seed": [o[2] for o in outs][:3]}
+                        witness = w_
+                        if not ok:
+                            break
                     run.add(core.Obligation(name, core.REFUTED, "syntactic-rule", dt / max(1, len(sites)),
                                             model={"witness": witness, "site": s}, detail="%s | line %d: %s" % (s["why"], s["line"], s["text"]), replay=rep))
     stale = set(WAIVERS) - used_waivers
